@@ -79,6 +79,7 @@ pub use core::ops::{Add, Sub, Mul, Div, Rem, Neg, Not, Shl, Shr, BitAnd, BitOr, 
 pub use vstd::std_specs::ops::{@SPEC_TRAITS@};
 pub use vstd::std_specs::cmp::{PartialEqSpec, PartialEqSpecImpl, PartialOrdSpec, PartialOrdSpecImpl};
 pub use vstd::std_specs::convert::{IntoSpec, FromSpec, FromSpecImpl};
+pub use vstd::std_specs::core::{IndexSpecImpl};
 pub use core::cmp::Ordering;
 
 /// exact scalar
